@@ -180,6 +180,13 @@ fn merge_case(env: &mut Env, out: &mut Out, inputs: Vec<Vec<MTree>>, must_equal:
     let merged = match res {
         Ok(Ok(m)) => m,
         Ok(Err(e)) => { out.case(&req, "err"); out.oracle_fail("tree-merge:error", format!("{req}: {e}")); return; }
+        Err(e) if e.contains("left == right") && e.contains("TreeId(") => {
+            // debug_assert_eq!(re_merged, simplified) in MergedTree::resolve (debug-assertion builds only)
+            out.case(&req, "panic:resolve-debug-assert");
+            out.tally("merge.result", "debug-assert");
+            out.oracle_fail("tree-merge:resolve-debug-assert-remerge-differs", format!("{req}: {}", e.replace('\n', " ")));
+            return;
+        }
         Err(e) => { out.case(&req, "panic"); out.oracle_fail("tree-merge:panic", format!("{req}: {e}")); return; }
     };
     let result_terms = match env.conv.read_merged(&merged) { Ok(t) => t, Err(e) => { out.case(&req, "undecodable"); out.oracle_fail("tree-merge:undecodable", e); return; } };
@@ -259,9 +266,19 @@ fn pv_case(env: &mut Env, out: &mut Out, terms: &[MTree]) {
 }
 
 pub fn run(cfg: &Cfg, out: &mut Out) {
+    // panics of the implementation are caught by `guard` and reported; keep stderr quiet
+    std::panic::set_hook(Box::new(|_| {}));
     let mut envs = [Env::new(true), Env::new(false)];
+    // fixed reproducer of the known finding (see notes/C07.md): a cancelling file pair hides that the
+    // remaining terms of `1` are all directories, so re-merging the simplified result merges further
+    for env in envs.iter_mut() {
+        let f = |s: &[(u64, V)]| s.to_vec();
+        let t0 = f(&[(1, V::T(f(&[(0, V::F(0, false)), (1, V::F(1, false))])))]);
+        let t1 = f(&[(1, V::T(f(&[(0, V::F(0, false))])))]);
+        merge_case(env, out, vec![vec![f(&[(2, V::F(0, false))])], vec![t0, t1, f(&[(1, V::F(2, false)), (2, V::F(0, false))])], vec![f(&[(1, V::F(2, false))])]], None);
+    }
     let mut r = cfg.rng(7);
-    let n = cfg.n(900, 40_000);
+    let n = cfg.n(12_000, 300_000);
     for i in 0..n {
         let env = &mut envs[if i % 3 == 2 { 1 } else { 0 }];
         let pal = Palette::new(&mut r);
